@@ -493,6 +493,7 @@ struct Dec {
                     } else if (t >= 13 && t <= 15) {
                         v.kind = 4;  // string by reference number, resolved at END (a b-string may hold any bytes:
                         v.u = r.uint();  // an in-band placeholder could collide with a real value)
+                        v.i = (int64_t)t;  // the character class the reference declares (13 a-, 14 b-, 15 n-string)
                     } else {
                         throw Failure{"unknown property value type " + std::to_string(t)};
                     }
@@ -963,7 +964,10 @@ struct Dec {
                 if (v.kind == 4) {
                     v.kind = 3;
                     v.s = resolve(placeholder(v.u), propstrings, "property string");
+                    if (v.i == 13 && !is_astring(v.s)) strict("property string referenced as an a-string holds other characters", d.end_offset);
+                    if (v.i == 15 && !is_nstring(v.s)) strict("property string referenced as an n-string holds other characters", d.end_offset);
                     v.u = 0;
+                    v.i = 0;
                 }
         }
     }
